@@ -29,6 +29,10 @@ BOM_FAMILY = ["utf-8-sig", "utf-16", "utf-16-le", "utf-16-be", "utf-32", "utf-32
 # in shift_jis), U+FEFF (BOM as a character), DEL+1
 PLANT = ["\xe9", "\x85", "\xa0", "\xad", "\u0434", "\u20ac", "\u4e2d", "\uff8a", "\u2028", "\ufffd", "\U0001f600",
          "\ud800", "\xa5", "\u203e", "\ufeff", "\x80", "\u0100", "\U0010ffff"]
+# characters Python treats as white space / line breaks (str.isspace, str.splitlines, str.strip, re \s): anything in
+# the code that strips, splits or matches \s sees them; U+001C-1F are ASCII (never escaped) but belong to the class
+WS_PLANT = ["\x85", "\xa0", "\u1680"] + [chr(c) for c in range(0x2000, 0x200b)] + \
+           ["\u2028", "\u2029", "\u202f", "\u205f", "\u3000", "\x1c", "\x1d", "\x1e", "\x1f"]
 FOLLOW = ["", "a", "F", "0", "9", " ", "\n", ";", '"', "'", "\t", "g", "-", "\xe9", "\U0001f600"]
 
 # (name, template, follow strings that keep the template one well-formed construct)
@@ -76,6 +80,23 @@ POSITIONS = [
     ("unknown-nested-at", "@x{@%s y;}", IDF),
     ("unknown-string", '@x "%s";', IDF + [" "]),
     ("important-sibling", "a{x:%s !important}", IDF),
+    # first / last character of a URL (both URL readers strip(), helper.uri decides about quoting)
+    ("url-dq-first", 'a{b:url("%sx.png")}', IDF),
+    ("url-dq-last", 'a{b:url("x%s")}', ["", "\xe9"]),
+    ("import-url-first", '@import url("%sx");', IDF),
+    ("import-url-last", '@import url("x%s");', [""]),
+    ("import-string-last", '@import "x%s";', [""]),
+    ("fontface-src", '@font-face{src:url("%sx")}', IDF),
+    ("fontface-src-last", '@font-face{src:url("x%s")}', [""]),
+    # inside blocks of every kind (block text is indented line by line)
+    ("media-string", '@media all{a{content:"%s"}}', IDF + [" ", ";"]),
+    ("media-comment", "@media all{/*%s*/a{x:1}}", IDF + [" "]),
+    ("media-attr-string", '@media all{a[b="%s"]{x:1}}', IDF),
+    ("media-ident", "@media all{a{x:b%s}}", IDF),
+    ("page-string", '@page{content:"%s"}', IDF + [" "]),
+    ("unknown-block-string", '@x{a:"%s"}', IDF + [" "]),
+    ("unknown-block-comment", "@x{/*%s*/}", IDF + [" "]),
+    ("rule-comment-multi", "a{x:1;/*%s*/y:2}", IDF + [" "]),
 ]
 
 
@@ -140,6 +161,20 @@ def extract_rule(r):
 
 def extract(sheet):
     return [extract_rule(r) for r in sheet.cssRules]
+
+
+def model_chars(m):
+    """every character held by the strings of an extracted model"""
+    if isinstance(m, str):
+        return set(m)
+    if isinstance(m, dict):
+        m = list(m.values())
+    if isinstance(m, (list, tuple)):
+        out = set()
+        for x in m:
+            out |= model_chars(x)
+        return out
+    return set()
 
 
 def unresolved_atkeyword_only(m1, m2):
@@ -227,9 +262,13 @@ def oracle(case):
         return ("re-parsed sheet does not carry the encoding", repr(m2[:1]))
     if m2[1:] != m1[1:]:
         # scope of C13: what the *encoding* changes.  A sheet that, before any encoding is assigned, does not
-        # re-parse from its own str serialization to the same model is C03's subject (e.g. U+00A0 in a selector).
+        # re-parse from its own str serialization to the same model is C03's subject (e.g. U+00A0 as a selector) ...
         if extract(cp.parseString(text0)) != m0:
-            return ("SKIP", "not text-stable")
+            # ... but only when the PARSER already did not keep a planted character (then there is nothing for the
+            # encoding to preserve); a character the model holds and the serializer loses is a failure here too
+            kept = model_chars(m0)
+            if any((ord(ch) >= 128 or (ord(ch) < 32 and ch not in "\t\n\r\f")) and ch not in kept for ch in src):
+                return ("SKIP", "not text-stable")
         if unresolved_atkeyword_only(m1[1:], m2[1:]):
             return ("re-parsed object model differs: at-keyword of an unknown rule comes back with its escape "
                     "unresolved (ATKEYWORD token values are not escape-resolved)", "atkeyword-unresolved")
@@ -687,13 +726,17 @@ def gen_sheets(rng, n_random):
         for ch in PLANT:
             for f in follows:
                 out.append((name, tpl % (ch + f)))
+        for ch in WS_PLANT:                      # the white-space class at every position, alone and before a letter
+            if ch not in PLANT:
+                for f in follows[:2]:
+                    out.append((name, tpl % (ch + f)))
     n_exh = len(out)
     for _ in range(n_random):
         k = rng.randint(1, 4)
         parts = []
         for _ in range(k):
             name, tpl, follows = rng.choice(POSITIONS)
-            x = "".join(rng.choice(PLANT) + rng.choice(follows) for _ in range(rng.randint(1, 2)))
+            x = "".join(rng.choice(PLANT + WS_PLANT) + rng.choice(follows) for _ in range(rng.randint(1, 2)))
             if x[-1:] in " \n\t;" and name not in ("comment", "comment-in-rule"):
                 x = x.rstrip(" \n\t;") or rng.choice(PLANT)
             parts.append(tpl % x)
@@ -981,7 +1024,7 @@ def run(ctx):
                 "non-trivial = (sheet, codec) pairs in which at least one planted character is not encodable, "
                 "i.e. the escape path runs; model correspondence: handler text per code point, "
                 "encode/decode/resolve of random texts per codec, tokens of escaped sheets, sheet text + detection"
-                % (len(POSITIONS), len(PLANT), n_exh, len(codecs_used)),
+                % (len(POSITIONS), len(PLANT), len(WS_PLANT), n_exh, len(codecs_used)),
         "samples": [list(c) for c in cases[len(corpus) + 7:len(corpus) + 10]] + [list(cases[-1])] + [list(hists[5]), list(hists[-1])],
         "history_cases": len(hists),
         "history_rule": "every codec name the interpreter knows (%d: text, non-text, special) + %d odd / invalid names, each "
